@@ -19,6 +19,9 @@ mut("c18-revert-fix", "C18", "sandbox/src/parent.rs",
     "                        break_out = true;\n                        Err(err.into())\n",
     "                        Err(err.into())\n",
     "revert the fix: a panic reply leaves the exiting child in place")
+mut("c18-revert-fix-2", "C18", "sandbox/src/parent.rs",
+    None, None,
+    "revert the second fix: a failed write of the request ends run_task (needs a payload larger than the child's free memory)")
 mut("c18-timeout-no-restart", "C18", "sandbox/src/parent.rs",
     "                    Err(_timeout) => {\n                        break_out = true;\n",
     "                    Err(_timeout) => {\n",
@@ -101,6 +104,9 @@ mut("c20-write-in-place", "C20", "cli/src/config.rs",
 mut("c20-persist-before-status", "C20", "cli/src/config.rs",
     None, None,
     "persist before looking at the status: an error page replaces the cache")
+mut("c20-revert-fix", "C20", "cli/src/config.rs",
+    None, None,
+    "revert the fix: the downloaded body is not validated, so a 200 response without Content-Length that is closed early is persisted")
 mut("c20-no-stale-fallback", "C20", "cli/src/config.rs",
     "    if let Ok(file) = File::open(&path) {\n        // Indicate error even though we're returning success.\n",
     "    if let (true, Ok(file)) = (expiration.is_none(), File::open(&path)) {\n        // Indicate error even though we're returning success.\n",
@@ -114,8 +120,8 @@ mut("c20-no-timeout", "C20", "cli/src/config.rs",
     "    let _ = timeout;\n",
     "no transfer timeout: a stalled server hangs start-up")
 mut("c20-no-seek", "C20", "cli/src/config.rs",
-    "    temp_file.as_file_mut().seek(SeekFrom::Start(0))?;\n",
-    "",
+    "    temp_file.as_file_mut().seek(SeekFrom::Start(0))?;\n\n    temp_file\n        .persist(path)",
+    "    temp_file\n        .persist(path)",
     "returned handle is left at end of file: the fresh download reads as empty in the same run")
 mut("c20-status-lt-400-ok", "C20", "cli/src/config.rs",
     "    if status != 200 {\n",
@@ -173,6 +179,22 @@ def _(src):
     s = src("sandbox/src/frame.rs")
     s = s.replace("let len = u32::to_ne_bytes(bytes.len() as u32);", "let len = u32::to_ne_bytes(bytes.len() as u16 as u32);")
     return {"sandbox/src/frame.rs": s}
+
+@special("c18-revert-fix-2")
+def _(src):
+    s = src("sandbox/src/parent.rs")
+    a = s.index("                if let Err(err) = frame\n                    .write_async::<MessageRequest<S>, _>(Pin::new(&mut stdin), &request)")
+    b = s.index("                let interrupt = async {")
+    s = s[:a] + "                frame\n                    .write_async::<MessageRequest<S>, _>(Pin::new(&mut stdin), &request)\n                    .await?;\n\n" + s[b:]
+    return {"sandbox/src/parent.rs": s}
+
+@special("c20-revert-fix")
+def _(src):
+    s = src("cli/src/config.rs")
+    a = s.index("    // A response without a Content-Length that the server (or a proxy) closes")
+    b = s.index("    temp_file\n        .persist(path)")
+    s = s[:a] + s[b:]
+    return {"cli/src/config.rs": s}
 
 @special("c18-resumable-frame-read")
 def _(src):
